@@ -219,13 +219,13 @@ CHECKS['C02'] = dict(
          "(also at #inf/#sup), and C02_comparison_*_partial (Cnl/AggregateProofs.v): for every phrase of the grammar / between with numeric or "
          "aggregate bounds / aggregate-vs-aggregate, both polarities and EVERY value of the aggregates, the comparison literals emitted through the "
          "regenerated tables and convert_operation's three aggregate paths hold exactly when the named comparison holds (prohibited) / fails "
-         "(required). C02_aggregate_term_value_partial (Cnl/AggregateTermProofs.v): for five of the seven sentence forms with an outer label and all four "
+         "(required). C02_aggregate_term_value_partial (Cnl/AggregateTermProofs.v): for all seven sentence forms with an outer label and all four "
          "functions, under any binding and on any admissible interpretation, the emitted aggregate term evaluates to the reading's "
          "count/sum/max/min over the distinct qualifying tuples; C02_unbound_sentence_correct_partial / C02_bound_sentence_correct_partial: END TO END for "
          "sentences without an outer variable and with one outer variable (given by a whenever clause or by the passive subject), compared with "
          "a number or a pair of numbers (any rooms/shelves, every phrase/function/polarity): the emitted constraint is violated by exactly the "
-         "interpretations the reading excludes. Not proved: of-entity and plain-weight passive forms, filters, author-named counted values, "
-         "aggregate-vs-aggregate sentences end to end (partial). Cnl/Aggregate.v: the seven aggregate sentence forms over a two-concept one-relation vocabulary, their READING, the "
+         "interpretations the reading excludes. Not proved: filters moved inside the braces, author-named counted values, aggregate-vs-aggregate "
+         "sentences end to end (partial). Cnl/Aggregate.v: the seven aggregate sentence forms over a two-concept one-relation vocabulary, their READING, the "
          "compile model (the emitted rule, using the generated operator / phrase / negation / between tables and Cnl/Comparison.v) and the semantics "
          "of the emitted rule. Tie: the compile model must print the implementation's constraint modulo renaming of variables by first occurrence; "
          "oracle: for every generated specification ALL 2^(n*m) interpretations are evaluated in Coq: reading = membership in clingo's answer sets of "
